@@ -19,6 +19,14 @@ ENC_TRUSTED = declib.DEC_TRUSTED + [
     "(tables, selectors, padding) enter the model as a WITNESS that must satisfy witness_ok; the bit layout of transmit() is "
     "modelled exactly (Enc/EncModel.write_block) and compared byte for byte with the real transmit() on the real witness "
     "(harness/enc_h_block.c includes src/encode.c)",
+    "Enc/GenModel.v: hand-written executable model of generate_prefix_code() (number of trees, initial trees, EM iterations with the packed "
+    "10-bit cost fields, make_code_lengths, tree reordering / removal, dummy second tree, assign_codes via Enc/PmModel.v); Properties_C02gen "
+    "proves that its result ALWAYS satisfies the table/selector part of witness_ok (2..6 complete tables with lengths 1..20, selectors < "
+    "#tables, count = ceil(nm/50) <= 18001) for every symbol vector, cluster factor and every admissible make_code_lengths, with no "
+    "out-of-bounds access or failed assert; tied to encode.c by harness/gen_h.c (ASan+UBSan+asserts, poisoned state: nt, cost, selectors in "
+    "both numberings, tmap, every transmitted table) and on the real mtfv of whole blocks (gen_part.check_blocks). Remaining witness: BWT "
+    "primary index, padding (w_pad <= 3) and extra selector chosen in encode(); NOT proved: that the real make_code_lengths never fails "
+    "(Huffman depth <= 30 for <= 900050 symbols) - the composition theorems are conditional on the model returning a value",
 ]
 
 
@@ -161,11 +169,24 @@ def block_cases(rng, n, max_m=1500):
     return cases
 
 
-def encoder_correspondence(check, cases):
-    """byte-exact: real transmit() output vs write_block on the real witness; witness_ok; MTF symbols."""
+def encoder_correspondence(check, cases, gen_vectors=False):
+    """byte-exact: real transmit() output vs write_block on the real witness; witness_ok; MTF symbols;
+    model of generate_prefix_code() on the real mtfv of every block (and, with gen_vectors, on generated symbol vectors)."""
     hres = run_harness(cases)
     mres = run_model(cases, hres)
+    gen_stats = {}
+    try:
+        import gen_part
+        gen_stats["gen_blocks"] = gen_part.check_blocks(check, hres)
+        if gen_vectors:
+            g = gen_part.correspond(check) or {}
+            gen_stats["gen_vectors"] = {k: v for k, v in g.items() if k != "samples"}
+    except vlib.BuildError:
+        raise
+    except Exception as e:
+        check.broken.append(Broken("correspondence", "gen_part (model of generate_prefix_code) crashed", repr(e)[:800]))
     stats = {"blocks": 0, "disagreements": 0, "witness_not_ok": 0, "nt_hist": {}, "pad_hist": {}, "maxlen_hist": {}}
+    stats.update(gen_stats)
     for (m, d), (st, kv, raw), mk in zip(cases, hres, mres):
         if st != "OK":
             if st != "EMPTY":
